@@ -27,8 +27,6 @@ Definition join_stoks (j : string * string * jc_ast) : list stok :=
   end.
 Definition opt_stoks (k : skw) (o : option expr) : list stok := match o with None => [] | Some e => SK k :: e_stoks e end.
 
-Definition from_stoks (fr : list string) : list stok :=
-  match fr with [] => [] | _ => SK KFrom :: commas (map (fun t => [SSrc t]) fr) end.
 Definition group_stoks (gs : list expr) : list stok :=
   match gs with [] => [] | _ => SK KGroupBy :: commas (map e_stoks gs) end.
 Definition orders_stoks (os : list (expr * option order)) : list stok :=
